@@ -401,6 +401,45 @@ fn write_fault_case(rep: &Report, idx: usize, seed: u64) -> Option<String> {
     res.err()
 }
 
+/// Chunks whose *stored* form is larger than what one write call to a file moves (2 MiB in
+/// tokio): incompressible chunks of 2.2 - 3.5 MiB, raw or through a codec that gives up on
+/// them, written by the CLI (file / stdin) — the archive must conform like any other.
+fn big_stored_chunk_case(rep: &Report, idx: usize, seed: u64) -> Option<String> {
+    use crate::refimpl::chunker::Cfg;
+    let mut rng = Rng::new(seed).fork(0x11b0 + idx as u64);
+    let dir = scn::case_dir("C11", 70_000 + idx);
+    let res = (|| -> Result<(), String> {
+        let n = rng.urange(2_200_000, 3_500_000);
+        let cfg = Cfg::fixed(n);
+        let comp = *rng.pick(&[crate::gen::Comp::None, crate::gen::Comp::Brotli(1), crate::gen::Comp::Zstd(1)]);
+        let extra = rng.urange(1, 900_000);
+        let source = rng.bytes(n * 2 + extra);
+        let mut spec = scn::CompressSpec::new(cfg, comp, 64);
+        if idx % 3 == 1 {
+            spec.stdin = Some(rng.next_u64() | 1);
+        }
+        let (run, out_path) = scn::compress_run(&dir, "big", &source, &spec);
+        let o = proc::run(&run);
+        rep.eval();
+        if o.exit == proc::Exit::Timeout {
+            rep.inconclusive("watchdog (big stored chunk)");
+            return Ok(());
+        }
+        if !o.exit.ok() {
+            return Err(format!("compress of a valid input failed: {} {}", o.exit.describe(), o.tail()));
+        }
+        let bytes = std::fs::read(&out_path).map_err(|e| e.to_string())?;
+        let parsed = ccommon::conformance(&bytes, &source, &spec)?;
+        if parsed.dict.descs.iter().any(|d| d.archive_size > (2 << 20)) {
+            rep.count("archives_with_a_stored_chunk_over_2MiB", 1);
+            rep.nontrivial(format!("bigstored:{}#{}", spec.describe(), idx));
+        }
+        Ok(())
+    })();
+    scn::cleanup(&dir, res.is_err());
+    res.err()
+}
+
 fn self_test(rep: &Report) {
     if let Err(e) = codec::self_test() {
         rep.broken(format!("R2 self-test: {}", e));
@@ -502,6 +541,18 @@ pub fn run(tier: Tier, seed: u64) -> i32 {
             rep.broken("no write fault fired during compress".into());
         }
     }
+    {
+        let nb = tier.pick(4, 30);
+        let out = par_map(nb, 4, |i| (i, big_stored_chunk_case(&rep, i, seed)));
+        for (i, r) in out {
+            if let Some(why) = r {
+                rep.violation("c11/big-stored-chunk/archive does not conform", json!({"why": why}), json!({"engine": "bigstored", "idx": i, "seed": seed}));
+            }
+        }
+        if rep.counter("archives_with_a_stored_chunk_over_2MiB") == 0 {
+            rep.broken("no archive with a stored chunk over 2 MiB was judged".into());
+        }
+    }
     if rep.counter("descriptors_checked") == 0 || rep.counter("info_outputs_checked") == 0 {
         rep.broken("no archive was decoded / no info output checked".into());
     }
@@ -519,6 +570,20 @@ pub fn run(tier: Tier, seed: u64) -> i32 {
 
 pub fn replay(v: &Value) -> i32 {
     let r = &v["replay"];
+    if r["engine"] == "bigstored" {
+        let rep = Report::new("C11", "exploration", Tier::Quick, r["seed"].as_u64().unwrap_or(1));
+        return match big_stored_chunk_case(&rep, r["idx"].as_u64().unwrap_or(0) as usize, r["seed"].as_u64().unwrap_or(1)) {
+            Some(why) => {
+                println!("replay: VIOLATED: {}", why);
+                println!("VIOLATION property=C11 replay=(replayed)");
+                1
+            }
+            None => {
+                println!("replay: property held on this case");
+                0
+            }
+        };
+    }
     if r["engine"] == "writefault" {
         let rep = Report::new("C11", "exploration", Tier::Quick, r["seed"].as_u64().unwrap_or(1));
         return match write_fault_case(&rep, r["idx"].as_u64().unwrap_or(0) as usize, r["seed"].as_u64().unwrap_or(1)) {
